@@ -269,19 +269,21 @@ fn is_identity_acceptable(items: &'_ [QualityItem<Preference<Encoding>>]) -> boo
     }
 
     // Loop algorithm depends on items being sorted in descending order of quality. As such, it
-    // is sufficient to return (q > 0) when reaching either an "identity" or "*" item.
-    for q in items {
-        match (q.quality, &q.item) {
-            // occurrence of "identity;q=n"; return true if quality is non-zero
-            (q, Preference::Specific(Encoding::Known(ContentEncoding::Identity))) => {
-                return q > Quality::ZERO
-            }
+    // is sufficient to return (q > 0) when reaching the first item of the kind looked for.
 
-            // occurrence of "*;q=n"; return true if quality is non-zero
-            (q, Preference::Any) => return q > Quality::ZERO,
+    // occurrence of "identity;q=n" is more specific than any "*"; return true if quality is non-zero
+    if let Some(q) = items.iter().find(|q| {
+        matches!(
+            q.item,
+            Preference::Specific(Encoding::Known(ContentEncoding::Identity))
+        )
+    }) {
+        return q.quality > Quality::ZERO;
+    }
 
-            _ => {}
-        }
+    // occurrence of "*;q=n" without an "identity" item; return true if quality is non-zero
+    if let Some(q) = items.iter().find(|q| q.item.is_any()) {
+        return q.quality > Quality::ZERO;
     }
 
     // implicit acceptable identity
